@@ -55,6 +55,9 @@ func abortOnHang(what string, input any) {
 			res.Shards = shards
 		}
 		for _, old := range globMarkers(markerPath) {
+			if b, err := os.ReadFile(old); err == nil {
+				res.Notes = append(res.Notes, "in flight when the deadline passed: "+truncate(string(b), 4000))
+			}
 			os.Remove(old)
 		}
 		if res.Write(childCfg.Out) == nil {
